@@ -184,7 +184,7 @@ impl Property for C17 {
         "Cases (stateful): a vector (any zoo type/provenance, length <=70 quick / 300 thorough), an iterator source (iter() | (&v).into_iter(), optionally .rev()), a sequence of 0..25 calls over next, next_back, nth(k), nth_back(k), size_hint with k in {0..5, rem-1, rem, rem+1, usize::MAX, usize::MAX-1, usize::MAX-rem, arbitrary} (rem = items remaining at call time), then a terminal count | last | collect | drain-and-keep-calling. Oracle: std::slice::Iter over the model bits driven by the same calls, every return value compared; the vector passes the battery afterwards (iteration does not modify it). Enumerated: all call sequences of length <=4 over a 7-call alphabet for every n<=5, all four sources, on 3 types. Non-trivial: items were consumed from both ends and at least one nth/nth_back with k>0 ran on a partially consumed iterator. Distinct by hash of the case.".into()
     }
     fn random_cases(&self, tier: Tier) -> u64 {
-        tier.pick(300000, 1200000)
+        tier.pick(300000, 9600000)
     }
     fn strategy(&self, tier: Tier) -> BoxedStrategy<C17Case> {
         let nmax = tier.pick(70, 300);
